@@ -250,6 +250,43 @@ func (g *edGroup) Add(a, b Pt) Pt {
 	return Pt{X: x, Y: y}
 }
 
+// gMulRaw multiplies without reducing the scalar modulo the group order (needed to reach torsion).
+func gMulRaw(g Group, k *big.Int, p Pt) Pt {
+	r := g.Identity()
+	for i := k.BitLen() - 1; i >= 0; i-- {
+		r = g.Add(r, r)
+		if k.Bit(i) == 1 {
+			r = g.Add(r, p)
+		}
+	}
+	return r
+}
+
+var edTorsion []Pt
+
+// EdTorsion returns the eight points of the torsion subgroup of edwards25519 (index 0 = identity),
+// computed from the curve equation: multiply points by the prime order until one of order 8 appears.
+func EdTorsion() []Pt {
+	if edTorsion != nil {
+		return edTorsion
+	}
+	for y := int64(2); ; y++ {
+		x := Ed.recoverX(big.NewInt(y), false)
+		if x == nil {
+			continue
+		}
+		t := gMulRaw(Ed, Ed.n, Pt{X: x, Y: big.NewInt(y)})
+		t4 := gMulRaw(Ed, big.NewInt(4), t)
+		if PtEq(t4, Ed.Identity()) {
+			continue // order divides 4
+		}
+		for k := int64(0); k < 8; k++ {
+			edTorsion = append(edTorsion, gMulRaw(Ed, big.NewInt(k), t))
+		}
+		return edTorsion
+	}
+}
+
 // EdEncode gives the standard 32-byte encoding of an affine point.
 func EdEncode(p Pt) []byte {
 	out := make([]byte, 32)
